@@ -167,10 +167,10 @@ PROPS = {
                 level_note=LEVEL_NOTE),
     'C09': dict(level='proof', module='EscProofs.P.C09', streams=hist('C09'),
                 aspects=['hist:gets', 'hist:updates', 'hist:removals'], monitors=['C09'],
-                theorems=['Esc.P.C09_untouched', 'Esc.P.C09_history', 'Esc.P.C09_uncounted', 'Esc.P.C09_cache_uncounted', 'Esc.P.C09_lists_uncounted'],
+                theorems=['Esc.P.C09_untouched', 'Esc.P.C09_history', 'Esc.P.C09_uncounted', 'Esc.P.C09_cache_uncounted', 'Esc.P.C09_lists_uncounted', 'Esc.P.C09_alloc_irrelevant'],
                 technique='Lean 4 theorem (journal anatomy: every node-targeting call names an uncordoned node of the view) + differential correspondence and runtime monitor',
                 level_text='C09_untouched / C09_history: outside dry mode every GET/UPDATE/DELETE/terminate targets an uncordoned node of that scan\'s view, whatever the cordoned nodes carry; '
-                           'C09_uncounted: a cordoned node is in none of the working lists (so not in the capacity sum). Tie: hist correspondence on node-targeting calls + monitor. '
+                           'C09_uncounted: a cordoned node is in none of the working lists (so not in the capacity sum); C09_alloc_irrelevant: outside dry mode the complete result of a group scan (decision, every call, new controller and provider state) is the same whatever allocatable CPU/memory the cordoned nodes report. Tie: hist correspondence on node-targeting calls + monitor. '
                            'C09_cache_uncounted / C09_lists_uncounted: the remembered node size and the working lists are the same whether or not cordoned nodes are listed (defect F8 repaired in 36808c6; regression scenario in corpus/C09).',
                 level_note=LEVEL_NOTE),
     'C10': dict(level='proof', module='EscProofs.P.C10', streams=hist('C10', focus='annot'),
